@@ -328,14 +328,20 @@ def gen_to_seq(eng, st, g):
     dst = fresh("flt_dst", z3.ArraySort(I, I))
     j, i = z3.Const(fresh_name("j"), I), z3.Const(fresh_name("i"), I)
     n = seq.n
-    ax = [
-        m >= 0, m <= n,
-        FA([j], z3.Implies(z3.And(0 <= j, j < m),
-                                  z3.And(0 <= src[j], src[j] < n, g.cond_at(src[j]), dst[src[j]] == j)), patterns=[src[j]]),
-        FA([j], z3.Implies(z3.And(0 <= j, j + 1 < m), src[j] < src[j + 1]), patterns=[src[j + 1]]),
-        FA([i], z3.Implies(z3.And(0 <= i, i < n, g.cond_at(i)), z3.And(0 <= dst[i], dst[i] < m, src[dst[i]] == i)),
-                  patterns=[dst[i]]),
-    ]
+    c0, c1 = m >= 0, m <= n
+    a1 = FA([j], z3.Implies(z3.And(0 <= j, j < m),
+                            z3.And(0 <= src[j], src[j] < n, g.cond_at(src[j]), dst[src[j]] == j)), patterns=[src[j]])
+    mono = FA([j], z3.Implies(z3.And(0 <= j, j + 1 < m), src[j] < src[j + 1]), patterns=[src[j + 1]])
+    a3 = FA([i], z3.Implies(z3.And(0 <= i, i < n, g.cond_at(i)), z3.And(0 <= dst[i], dst[i] < m, src[dst[i]] == i)),
+            patterns=[dst[i]])
+    h = eng.hooks.get("filter_monotone")
+    if h:
+        # a contract module may state the SAME fact (the kept positions are increasing) in another form, e.g. over two variables
+        # (no `j + 1` trigger: that one re-fires on the terms it creates), or leave it out (assuming less is sound)
+        r = h(eng, st, src, m)
+        if r is not None:
+            mono = r
+    ax = [c0, c1, a1, mono, a3]
     st = st.assume(*ax)
     out = VSeq(m, lambda s, jj: g.elt_at(z3.Select(src, jj)), known_len=None, tag="filter", src=seq.src)
     out.flt = (src, dst, g)        # ghost maps, for the coverage fact of lists built from a filtered set iteration
